@@ -338,7 +338,7 @@ class Impl:
     def step(self, tok):
         """Execute one op; returns the observation string in the model driver's format."""
         c = self.c
-        pre_done, pre_status, pre_exc = c.done(), c.status, c.exception
+        pre_done, pre_status, pre_exc, pre_result = c.done(), c.status, c.exception, c._result
         self.replaced_ok = False
         self.cur_op = tok
         self.pre_status = pre_status
@@ -369,6 +369,10 @@ class Impl:
             V(('done-monotone', f'done() was True before {tok} and False after it (status {pre_status} -> {post_status})'))
         if head in ('q', 'r') and pre_done and (out != 'rterr' or post_status != pre_status):
             V(('no-restart', f'{tok} on a done transfer ({pre_status}) gave {out}, status now {post_status}'))
+        if pre_done and not self.replaced_ok and (post_status != pre_status or post_exc is not pre_exc
+                                                  or c._result is not pre_result):
+            V(('done-state-frozen', f'{tok} changed a done transfer from ({pre_status}, {self.canon(pre_exc)}, {pre_result}) to '
+               f'({post_status}, {self.canon(post_exc)}, {c._result})'))
         if pre_exc is not None and post_exc is not pre_exc and not self.replaced_ok:
             V(('first-failure-kept', f'{tok} replaced the stored exception {self.canon(pre_exc)} by {self.canon(post_exc)}'))
         if (post_exc is not None) != (post_status in ('failed', 'cancelled')):
@@ -819,6 +823,8 @@ def real_lock_confirmation(ctx, rep, cases_with_model):
             rep.ctx.report(f'oracle:hang:{env}|{" ".join(ops)}',
                            f'C17/C04: with the genuine locks the op sequence never returns: callbacks "{env}", ops {" ".join(ops)}',
                            {'kind': 'history', 'component': 'coord', 'clause': 'hang-real', 'case': {'env': env, 'ops': ops}})
+        elif [r[0], r[1]] != want and run_impl(env, ops)[1]:
+            rep.oracle(env, ops, run_impl(env, ops)[1])
         elif [r[0], r[1]] != want:
             ctx.report('corr:coord:real-locks-differ',
                        f'run with genuine locks ends in {r[:2]} but the model in {want} for "{env}" / {" ".join(ops)}',
